@@ -3,6 +3,7 @@ package checks
 import (
 	"encoding/json"
 	"fmt"
+	"strings"
 
 	"github.com/openfga/language/pkg/go/transformer"
 
@@ -129,6 +130,7 @@ func c01Text(ctx *core.Ctx, tag, t string) bool {
 }
 
 func c01Run(ctx *core.Ctx) {
+	defer c01Lexemes(ctx)
 	models := gen.DSLModels(ctx.Thorough())
 	for i, tm := range models {
 		if !ctx.Mine(i) || tm.M.Module != "" {
@@ -160,15 +162,52 @@ func c01Run(ctx *core.Ctx) {
 	}
 }
 
+// c01Lexemes: every text of the lexeme enumeration (C08/C16's alphabet and contexts) that happens to be accepted as a
+// full model goes through the same oracle: accepted byte strings that the renderer would never write.
+func c01Lexemes(ctx *core.Ctx) {
+	k := 3
+	base := 1 << 22
+	for ci, cx := range gen.DSLContexts {
+		if !strings.HasPrefix(cx, "model") {
+			continue
+		}
+		for n := 0; n <= k; n++ {
+			alpha := gen.DSLLexemes
+			if n == 3 && !ctx.Thorough() {
+				alpha = gen.DSLLexemesSmall
+			}
+			if ctx.Expired() {
+				ctx.Cap(fmt.Sprintf("wall-clock cap in the lexeme enumeration (context %d, length %d)", ci, n))
+				return
+			}
+			gen.LexemeStrings(alpha, n, func(i int, s string) {
+				if !ctx.Mine(base + i) {
+					return
+				}
+				t := cx + s
+				if strings.Contains(t, "#") && strings.Contains(t, "{") {
+					return // '#' inside a condition expression is outside the property's domain
+				}
+				if c01Text(ctx, "lexemes", t) {
+					ctx.Flag("accepted-lexeme-string")
+					ctx.Count("accepted_lexeme_strings", 1)
+				}
+			})
+			base += gen.Pow(len(alpha), n)
+		}
+	}
+}
+
 func init() {
 	core.Register(&core.Check{
 		ID: "C01",
 		Rule: "every rendering (canonical + every single layout deviation + every uniform style; thorough: single deviations on top of styles, shapes up to 4 leaves) of every generated full model " +
 			"(all DSL-conform rewrite shapes, identifier classes in every position incl. keywords, restriction lists, all parameter types, expression alphabet); " +
+			"plus every string of <= 3 lexemes over the 38-lexeme DSL alphabet appended to the 7 valid model prefixes that is accepted as a model; " +
 			"each accepted text goes through parse/print/parse/print/parse in memory (same pointer) and through the JSON-string API. " +
 			"states = distinct models, non-trivial = distinct accepted texts",
 		Assume: []string{
-			"domain = texts produced by the reference renderer from the model families (plus whatever other checks feed in); arbitrary accepted byte strings outside these families are not enumerated",
+			"domain = texts produced by the reference renderer from the model families plus the accepted strings of the bounded lexeme enumeration; longer arbitrary byte strings are not enumerated",
 			"model equality = equality of the canonical strict dump (order of type definitions and restrictions significant, absent vs empty metadata distinguished, expressions compared after trimming)",
 		},
 		Technique: "bounded exhaustive enumeration of models x layouts; differential oracle between pipeline stages",
